@@ -16,6 +16,7 @@
 import GilVerif.Model.C06
 import Mathlib.Tactic.Linarith
 import Mathlib.Tactic.Ring
+import Mathlib.Tactic.IntervalCases
 
 namespace GilVerif.Props.C06
 open GilVerif.Gen.C06 GilVerif.Model.C06
@@ -542,6 +543,194 @@ theorem C06_paths :
     path .u8 .u16 = .upDiv ∧ path .u16 .u8 = .downDiv ∧ path (.packed 5) .u8 = .upNondiv ∧ path .u8 (.packed 5) = .downNondiv
     ∧ path (.packed 8) .u8 = .downDiv ∧ path .u8 .u8 = .identity ∧ path (.packed 4) .u8 = .upDiv ∧ path .u32 (.packed 16) = .downDiv := by
   decide
+
+/-! ## E. the composed statement: the model's conversion between any two in-scope unsigned integral channel models
+       (case split + selected generated kernel + packed mask) satisfies the property's clauses on every integer path -/
+
+private def Cls.bound : Cls → Int | .B8 => 255 | .B16 => 65535 | .B32 => 4294967295 | .P8 => 255 | .P16 => 65535
+
+private theorem scope_facts (S : Ch) (h : S.inScopeU = true) : 1 ≤ S.umax ∧ S.umax ≤ Cls.bound S.cls ∧ S ∈ scopeU := by
+  cases S with
+  | packed n =>
+    simp only [Ch.inScopeU, decide_eq_true_eq] at h
+    obtain ⟨h1, h2⟩ := h
+    interval_cases n <;> decide
+  | u8 => decide
+  | u16 => decide
+  | u32 => decide
+  | i8 => simp [Ch.inScopeU] at h
+  | i16 => simp [Ch.inScopeU] at h
+  | i32 => simp [Ch.inScopeU] at h
+  | f32 => simp [Ch.inScopeU] at h
+
+private theorem mask_id (D : Ch) (k : Int) (h0 : 0 ≤ k) (h1 : k ≤ D.umax) : maskTo D k = k := by
+  cases D <;> simp only [maskTo]
+  case packed n =>
+    simp only [Ch.umax] at h1
+    exact Int.emod_eq_of_lt h0 (by omega)
+
+private theorem upDiv_eq (sc dc : Cls) (s sm dm k : Int) (h : upDiv sc dc s sm dm = some k) (hs : 0 ≤ s) (hs' : s ≤ sm)
+    (h1 : 1 ≤ sm) (hle : sm ≤ dm) (hd : dm % sm = 0) (hS : sm ≤ Cls.bound sc) (hD : dm ≤ Cls.bound dc) : k = s * (dm / sm) := by
+  cases sc <;> cases dc <;> simp [upDiv] at h <;> subst h <;> simp only [Cls.bound] at hS hD <;>
+  first
+    | exact C06_up_div_closed_B16_B32 s sm dm hs hs' h1 hle hd hS hD | exact C06_up_div_closed_B8_B16 s sm dm hs hs' h1 hle hd hS hD
+    | exact C06_up_div_closed_B8_B32 s sm dm hs hs' h1 hle hd hS hD | exact C06_up_div_closed_B8_P16 s sm dm hs hs' h1 hle hd hS hD
+    | exact C06_up_div_closed_P16_B32 s sm dm hs hs' h1 hle hd hS hD | exact C06_up_div_closed_P8_B16 s sm dm hs hs' h1 hle hd hS hD
+    | exact C06_up_div_closed_P8_B32 s sm dm hs hs' h1 hle hd hS hD | exact C06_up_div_closed_P8_B8 s sm dm hs hs' h1 hle hd hS hD
+    | exact C06_up_div_closed_P8_P16 s sm dm hs hs' h1 hle hd hS hD | exact C06_up_div_closed_P8_P8 s sm dm hs hs' h1 hle hd hS hD
+
+private theorem downDiv_eq (sc dc : Cls) (s sm dm k : Int) (h : downDiv sc dc s sm dm = some k) (hs : 0 ≤ s) (hs' : s ≤ sm)
+    (h1 : 1 ≤ dm) (hle : dm ≤ sm) (hd : sm % dm = 0) (hS : sm ≤ Cls.bound sc) (hD : dm ≤ Cls.bound dc) :
+    k = (s + sm / dm / 2) / (sm / dm) := by
+  cases sc <;> cases dc <;> simp [downDiv] at h <;> subst h <;> simp only [Cls.bound] at hS hD <;>
+  first
+    | exact C06_down_div_closed_B16_B8 s sm dm hs hs' h1 hle hd hS hD | exact C06_down_div_closed_B16_P16 s sm dm hs hs' h1 hle hd hS hD
+    | exact C06_down_div_closed_B16_P8 s sm dm hs hs' h1 hle hd hS hD | exact C06_down_div_closed_B32_B16 s sm dm hs hs' h1 hle hd hS hD
+    | exact C06_down_div_closed_B32_B8 s sm dm hs hs' h1 hle hd hS hD | exact C06_down_div_closed_B32_P16 s sm dm hs hs' h1 hle hd hS hD
+    | exact C06_down_div_closed_B32_P8 s sm dm hs hs' h1 hle hd hS hD | exact C06_down_div_closed_B8_P8 s sm dm hs hs' h1 hle hd hS hD
+    | exact C06_down_div_closed_P16_B16 s sm dm hs hs' h1 hle hd hS hD | exact C06_down_div_closed_P16_B8 s sm dm hs hs' h1 hle hd hS hD
+    | exact C06_down_div_closed_P16_P8 s sm dm hs hs' h1 hle hd hS hD | exact C06_down_div_closed_P8_B8 s sm dm hs hs' h1 hle hd hS hD
+    | exact C06_down_div_closed_P8_P8 s sm dm hs hs' h1 hle hd hS hD
+
+private theorem upNondiv_eq (sc dc : Cls) (s sm dm k : Int) (h : upNondiv sc dc s sm dm = some k) (hs : 0 ≤ s) (hs' : s ≤ sm)
+    (h1 : 1 ≤ sm) (hdm : 0 ≤ dm) (hS : sm ≤ Cls.bound sc) (hD : dm ≤ Cls.bound dc) : k = s * dm / sm := by
+  cases sc <;> cases dc <;> simp [upNondiv] at h <;> subst h <;> simp only [Cls.bound] at hS hD <;>
+  first
+    | exact C06_up_nondiv_closed_B8_P16 s sm dm hs hs' h1 hdm hS hD | exact C06_up_nondiv_closed_P16_B16 s sm dm hs hs' h1 hdm hS hD
+    | exact C06_up_nondiv_closed_P16_B32 s sm dm hs hs' h1 hdm hS hD | exact C06_up_nondiv_closed_P16_P16 s sm dm hs hs' h1 hdm hS hD
+    | exact C06_up_nondiv_closed_P8_B16 s sm dm hs hs' h1 hdm hS hD | exact C06_up_nondiv_closed_P8_B32 s sm dm hs hs' h1 hdm hS hD
+    | exact C06_up_nondiv_closed_P8_B8 s sm dm hs hs' h1 hdm hS hD | exact C06_up_nondiv_closed_P8_P16 s sm dm hs hs' h1 hdm hS hD
+    | exact C06_up_nondiv_closed_P8_P8 s sm dm hs hs' h1 hdm hS hD
+
+private theorem isSome_indep :
+    (∀ sc dc s a b, (upDiv sc dc s a b).isSome = (upDiv sc dc 0 a b).isSome)
+    ∧ (∀ sc dc s a b, (upNondiv sc dc s a b).isSome = (upNondiv sc dc 0 a b).isSome)
+    ∧ (∀ sc dc s a b, (downDiv sc dc s a b).isSome = (downDiv sc dc 0 a b).isSome) := by
+  refine ⟨?_, ?_, ?_⟩ <;> intro sc dc s a b <;> cases sc <;> cases dc <;> rfl
+
+/-- the closed-form value of the model's conversion on each integer path (in-scope models, in-range source) -/
+theorem C06_convU_closed (S D : Ch) (hS : S.inScopeU = true) (hD : D.inScopeU = true) (x : Int) (hx : 0 ≤ x) (hx' : x ≤ S.umax) :
+    (path S D = .identity → convU S D x = x)
+    ∧ (path S D = .upDiv → convU S D x = x * (D.umax / S.umax))
+    ∧ (path S D = .upNondiv → convU S D x = x * D.umax / S.umax)
+    ∧ (path S D = .downDiv → convU S D x = (x + S.umax / D.umax / 2) / (S.umax / D.umax)) := by
+  obtain ⟨sm1, smB, sMem⟩ := scope_facts S hS
+  obtain ⟨dm1, dmB, dMem⟩ := scope_facts D hD
+  have hk : kernelExists S D = true := by
+    have h := C06_dispatch_total
+    rw [List.all_eq_true] at h
+    have h2 := h S sMem
+    rw [List.all_eq_true] at h2
+    exact h2 D dMem
+  obtain ⟨i1, i2, i3⟩ := isSome_indep
+  refine ⟨?_, ?_, ?_, ?_⟩ <;> intro hp <;> simp only [convU, hp] <;> simp only [kernelExists, hp] at hk
+  · -- upDiv
+    have cond : S.umax < D.umax ∧ D.umax % S.umax = 0 := by
+      unfold path at hp; split_ifs at hp with a b c <;> simp_all
+    rw [← i1 S.cls D.cls x] at hk
+    obtain ⟨k, hk⟩ := Option.isSome_iff_exists.mp hk
+    have e := upDiv_eq _ _ _ _ _ _ hk hx hx' sm1 (by omega) cond.2 smB dmB
+    have l := (C06_up_div_laws S.umax D.umax sm1 (by omega) cond.2).2.2.2.1 x hx hx'
+    rw [hk, Option.getD_some, e]; exact mask_id D _ l.1 l.2
+  · -- upNondiv
+    rw [← i2 S.cls D.cls x] at hk
+    obtain ⟨k, hk⟩ := Option.isSome_iff_exists.mp hk
+    have e := upNondiv_eq _ _ _ _ _ _ hk hx hx' sm1 (by omega) smB dmB
+    have l := (C06_up_nondiv_laws S.umax D.umax sm1 (by omega)).2.2.2.1 x hx hx'
+    rw [hk, Option.getD_some, e]; exact mask_id D _ l.1 l.2
+  · -- downDiv
+    have cond : D.umax ≤ S.umax ∧ S.umax % D.umax = 0 := by
+      unfold path at hp; split_ifs at hp with a b c <;> simp_all <;> omega
+    rw [← i3 S.cls D.cls x] at hk
+    obtain ⟨k, hk⟩ := Option.isSome_iff_exists.mp hk
+    have e := downDiv_eq _ _ _ _ _ _ hk hx hx' dm1 cond.1 cond.2 smB dmB
+    have l := (C06_down_div_laws S.umax D.umax dm1 cond.1 cond.2).2.2.2.1 x hx hx'
+    rw [hk, Option.getD_some, e]; exact mask_id D _ l.1 l.2
+
+/-- THE PROPERTY for every ordered pair of in-scope unsigned integral channel models (uint8_t, uint16_t, uint32_t,
+    packed values of 1..16 bits) whose conversion is integer arithmetic (every pair except the non-divisible
+    down-conversions, which run in `double`): for all source values `s ≤ t` in range, the model's
+    `channel_converter_unsigned<S,D>` -- case split, selected generated kernel, wraps, narrowing, packed mask --
+    stays in the destination range, maps min to min and max to max, is within one destination unit of the exact
+    linear rescaling, and is monotone. -/
+theorem C06_convU_spec (S D : Ch) (hS : S.inScopeU = true) (hD : D.inScopeU = true) (hp : path S D ≠ .downNondiv)
+    (s t : Int) (hs : 0 ≤ s) (hst : s ≤ t) (ht : t ≤ S.umax) :
+    (0 ≤ convU S D s ∧ convU S D s ≤ D.umax)
+    ∧ (s = 0 → convU S D s = 0) ∧ (t = S.umax → convU S D t = D.umax)
+    ∧ (-S.umax < convU S D s * S.umax - s * D.umax ∧ convU S D s * S.umax - s * D.umax < S.umax)
+    ∧ convU S D s ≤ convU S D t := by
+  obtain ⟨sm1, _, _⟩ := scope_facts S hS
+  obtain ⟨dm1, _, _⟩ := scope_facts D hD
+  obtain ⟨vs1, vs2, vs3, vs4⟩ := C06_convU_closed S D hS hD s hs (by omega)
+  obtain ⟨vt1, vt2, vt3, vt4⟩ := C06_convU_closed S D hS hD t (by omega) ht
+  cases hpv : path S D with
+  | identity =>
+    have hSD : S = D := by unfold path at hpv; split_ifs at hpv with a <;> first | exact a | simp_all
+    subst hSD
+    rw [vs1 hpv, vt1 hpv]
+    refine ⟨⟨hs, by omega⟩, fun h => h, fun h => h, ⟨by nlinarith, by nlinarith⟩, hst⟩
+  | upDiv =>
+    have cond : S.umax < D.umax ∧ D.umax % S.umax = 0 := by
+      unfold path at hpv; split_ifs at hpv with a b c <;> simp_all
+    obtain ⟨l0, lmax, lmono, lrange, lexact⟩ := C06_up_div_laws S.umax D.umax sm1 (by omega) cond.2
+    rw [vs2 hpv, vt2 hpv]
+    refine ⟨lrange s hs (by omega), fun h => by rw [h]; exact l0, fun h => by rw [h]; exact lmax, ?_, ?_⟩
+    · rw [lexact s]; omega
+    · rcases Int.lt_or_eq_of_le hst with h | h
+      · exact Int.le_of_lt (lmono s t h)
+      · rw [h]
+  | upNondiv =>
+    obtain ⟨l0, lmax, lmono, lrange, lerr⟩ := C06_up_nondiv_laws S.umax D.umax sm1 (by omega)
+    rw [vs3 hpv, vt3 hpv]
+    refine ⟨lrange s hs (by omega), fun h => by rw [h]; exact l0, fun h => by rw [h]; exact lmax, ?_, lmono s t hst⟩
+    have := lerr s; omega
+  | downDiv =>
+    have cond : D.umax ≤ S.umax ∧ S.umax % D.umax = 0 := by
+      unfold path at hpv; split_ifs at hpv with a b c <;> simp_all <;> omega
+    obtain ⟨l0, lmax, lmono, lrange, lerr⟩ := C06_down_div_laws S.umax D.umax dm1 cond.1 cond.2
+    rw [vs4 hpv, vt4 hpv]
+    refine ⟨lrange s hs (by omega), fun h => by rw [h]; exact l0, fun h => by rw [h]; exact lmax, ?_, lmono s t hst⟩
+    have := lerr s; omega
+  | downNondiv => exact absurd hpv hp
+
+example : path (.packed 5) .u8 ≠ .downNondiv ∧ (Ch.packed 5).inScopeU = true ∧ convU (.packed 5) .u8 31 = 255 ∧ convU (.packed 5) .u8 17 = 139 := by decide
+
+private theorem unsigned_facts (c : Ch) (h : c.unsignedOf.inScopeU = true) :
+    c.isFloat = false ∧ c.unsignedOf.umax = c.maxV - c.minV := by
+  cases c <;> simp [Ch.unsignedOf, Ch.inScopeU] at h <;> simp [Ch.unsignedOf, Ch.isFloat, Ch.umax, Ch.maxV, Ch.minV]
+
+private theorem from_unsigned_add (c : Ch) (hf : c.isFloat = false) (u : Int) (h0 : 0 ≤ u) (h1 : u ≤ c.maxV - c.minV) :
+    fromUnsigned c u = u + c.minV := by
+  have := (C06_signed_offset c (u + c.minV) hf (by omega) (by omega)).2
+  rwa [Int.add_sub_cancel] at this
+
+/-- the same for channel_convert itself, signed models included (int8_t, int16_t, int32_t go through the offsets):
+    every ordered pair of in-scope integral channel models whose unsigned conversion is integer arithmetic -/
+theorem C06_conv_spec (S D : Ch) (hS : S.unsignedOf.inScopeU = true) (hD : D.unsignedOf.inScopeU = true)
+    (hp : path S.unsignedOf D.unsignedOf ≠ .downNondiv) (s t : Int) (hs : S.minV ≤ s) (hst : s ≤ t) (ht : t ≤ S.maxV) :
+    (D.minV ≤ conv S D s ∧ conv S D s ≤ D.maxV)
+    ∧ (s = S.minV → conv S D s = D.minV) ∧ (t = S.maxV → conv S D t = D.maxV)
+    ∧ (-(S.maxV - S.minV) < (conv S D s - D.minV) * (S.maxV - S.minV) - (s - S.minV) * (D.maxV - D.minV)
+       ∧ (conv S D s - D.minV) * (S.maxV - S.minV) - (s - S.minV) * (D.maxV - D.minV) < S.maxV - S.minV)
+    ∧ conv S D s ≤ conv S D t := by
+  obtain ⟨fS, uS⟩ := unsigned_facts S hS
+  obtain ⟨fD, uD⟩ := unsigned_facts D hD
+  have ts := (C06_signed_offset S s fS hs (by omega)).1
+  have tt := (C06_signed_offset S t fS (by omega) ht).1
+  obtain ⟨⟨r0, r1⟩, e0, e1, ⟨er0, er1⟩, mono⟩ :=
+    C06_convU_spec S.unsignedOf D.unsignedOf hS hD hp (s - S.minV) (t - S.minV) (by omega) (by omega) (by omega)
+  obtain ⟨⟨q0, q1⟩, _, _, _, _⟩ :=
+    C06_convU_spec S.unsignedOf D.unsignedOf hS hD hp (t - S.minV) (t - S.minV) (by omega) (by omega) (by omega)
+  have cs : conv S D s = convU S.unsignedOf D.unsignedOf (s - S.minV) + D.minV := by
+    unfold conv; simp only [fS, fD]; rw [ts]; exact from_unsigned_add D fD _ r0 (by omega)
+  have ct : conv S D t = convU S.unsignedOf D.unsignedOf (t - S.minV) + D.minV := by
+    unfold conv; simp only [fS, fD]; rw [tt]; exact from_unsigned_add D fD _ q0 (by omega)
+  rw [cs, ct, uS, uD] at *
+  refine ⟨⟨by omega, by omega⟩, fun h => by rw [e0 (by omega)]; omega, fun h => by rw [e1 (by omega)]; omega, ⟨?_, ?_⟩, by omega⟩
+  · rw [Int.add_sub_cancel]; exact er0
+  · rw [Int.add_sub_cancel]; exact er1
+
+example : conv .i8 .u16 (-128) = 0 ∧ conv .i8 .u16 127 = 65535 ∧ conv .i16 .i8 (-300) = -129 + 128 - 1 := by decide
 
 
 end GilVerif.Props.C06
